@@ -901,12 +901,64 @@ class ExprMixin(CallMixin):
                     l = PyList([])
                     l.created_in = self._frame_id()
                     return l
-            ev = self.eval(e.elt, loc, module)
+            over_text = isinstance(it, Str) or (isinstance(it, Sym) and getattr(it, "hint", None) == "str")
+            charmap = self._charmap_idiom(e, g, loc, module) if over_text and not g.ifs else None
+            if charmap is not None:
+                ev = Sym("charmap", elem, tuple(charmap))
+            else:
+                n_tr, n_cd = len(self.trace), len(self.conds)
+                ev = self.eval(e.elt, loc, module)
+                if over_text and len(self.trace) != n_tr and any(repr(elem) in str(k) for k, _ in self.conds[n_cd:]):
+                    # a branch taken per character of a text the analysis does not enumerate: one path would stand for "every character
+                    # took this branch", which is wrong for mixed texts - no verdict rather than a verdict about a different program
+                    raise AnalysisError("a comprehension over the characters of a text branches on the character in a way the evaluator "
+                                        f"does not model: `{ast.unparse(e.elt)[:80]}`", module.loc(e))
         finally:
             self.loop_ctx.pop()
         m = MapV(it, ev, ast.unparse(g.target))
         m.filtered = filtered  # type: ignore[attr-defined]
+        if charmap is not None:
+            m._charmap = charmap  # type: ignore[attr-defined]
         return m
+
+    def _charmap_idiom(self, e, g, loc, module):
+        """`c * 2 if c in CHARS else c` (or the mirrored `not in` form) for the loop variable c and a constant set of single characters:
+        the comprehension doubles exactly those characters.  Returns the characters, or None."""
+        t = g.target
+        elt = e.elt
+        if not (isinstance(t, ast.Name) and isinstance(elt, ast.IfExp) and isinstance(elt.test, ast.Compare) and len(elt.test.ops) == 1
+                and isinstance(elt.test.left, ast.Name) and elt.test.left.id == t.id):
+            return None
+        op = elt.test.ops[0]
+        if isinstance(op, ast.In):
+            dbl, same = elt.body, elt.orelse
+        elif isinstance(op, ast.NotIn):
+            dbl, same = elt.orelse, elt.body
+        else:
+            return None
+
+        def is_var(x):
+            return isinstance(x, ast.Name) and x.id == t.id
+        doubled = (isinstance(dbl, ast.BinOp) and isinstance(dbl.op, ast.Mult) and (
+            (is_var(dbl.left) and isinstance(dbl.right, ast.Constant) and dbl.right.value == 2 and type(dbl.right.value) is int) or
+            (is_var(dbl.right) and isinstance(dbl.left, ast.Constant) and dbl.left.value == 2 and type(dbl.left.value) is int))) or \
+            (isinstance(dbl, ast.BinOp) and isinstance(dbl.op, ast.Add) and is_var(dbl.left) and is_var(dbl.right))
+        if not doubled or not is_var(same):
+            return None
+        n_tr = len(self.trace)
+        cont = self.eval(elt.test.comparators[0], loc, module)
+        if len(self.trace) != n_tr:
+            return None
+        if isinstance(cont, Const) and isinstance(cont.v, str):
+            chars = list(cont.v)
+        else:
+            items = cont.args[0] if isinstance(cont, Sym) and cont.op == "set" else self.concrete_items(cont)
+            if items is None or not all(isinstance(x, Const) and isinstance(x.v, str) and len(x.v) == 1 for x in items):
+                return None
+            chars = [x.v for x in items]
+        if not chars:
+            return None
+        return sorted(set(chars), key=lambda c: (c != "'", c))
 
     def ev_Lambda(self, e: ast.Lambda, env, module):
         return FuncV(module, e, closure=env)
